@@ -139,4 +139,14 @@ PROPS = {
         "assumptions": ["the static retention analysis of tools/gen covers functions named *FromBytes*, *Unmarshal*, *parse* taking a []byte parameter in dhcpv4, dhcpv6, rfc1035label, iana"],
         "trusted_base": ["tools/gen's syntactic classification of storage sites; the overwrite harness decides on the real code"],
     },
+    "C20": {
+        "coq_files": BASE + ["Purity/", "Props/C20.v", "V4/Model.v"],
+        "rule": "generated and decoded DHCPv4 packets (typed options), their Options, every standalone DHCPv4 option value built by the exported constructors (parameter request list, "
+                "address lists, architectures, routes, user classes, relay agent info ...), DHCPv6 messages, each of their options at every nesting level, MessageOptions/RelayOptions "
+                "wrappers, constructed DHCPv6 options of every type, label sets, DUIDs; for each: every single niladic exported method (found by reflection, documented mutators "
+                "excluded) and sampled sequences of 2..3 (quick) / 2..6 (thorough), each call made twice (equal results), encoding and accessor dump compared after every call; "
+                "print-before-attach check for the parameter request list; non-trivial = distinct subject",
+        "assumptions": ["methods named SetBroadcast, SetUnicast, FromBytes, Add, Del, Update, UpdateOption, AddOption, DeleteOption are mutators by contract and are not called"],
+        "trusted_base": ["the harness (reflection-driven call sequences) decides on the real code; the Coq model is shallow"],
+    },
 }
